@@ -11,8 +11,8 @@ Definition wf_bytes (l : list Z) : Prop := Forall wf_byte l.
 Ltac decide_ifs :=
   repeat match goal with
          | |- context [if ?c then _ else _] =>
-           first [ replace c with true by (symmetry; unfold cont, is_surrogate; lia)
-                 | replace c with false by (symmetry; unfold cont, is_surrogate; lia) ]; cbv iota
+           first [ replace c with true by (symmetry; unfold second_ok, cont, is_surrogate; lia)
+                 | replace c with false by (symmetry; unfold second_ok, cont, is_surrogate; lia) ]; cbv iota
          end.
 
 (* ---- hex ---- *)
@@ -135,6 +135,26 @@ Qed.
 Lemma enc1_len c : scalar c -> (1 <= length (utf8_enc1 c) <= 4)%nat.
 Proof. intro H. unfold utf8_enc1. destruct (c <? 128), (c <? 2048), (c <? 65536); simpl; lia. Qed.
 
+Lemma second_ok_3 c : 2048 <= c < 65536 -> (c < 55296 \/ 57344 <= c) ->
+  second_ok (224 + c / 4096) (128 + (c / 64) mod 64) = true.
+Proof.
+  intros Hr Hs. unfold second_ok.
+  destruct (Z.eqb_spec (224 + c / 4096) 224); [lia|].
+  destruct (Z.eqb_spec (224 + c / 4096) 237); [lia|].
+  destruct (Z.eqb_spec (224 + c / 4096) 240); [lia|].
+  destruct (Z.eqb_spec (224 + c / 4096) 244); [lia|]. unfold cont. lia.
+Qed.
+
+Lemma second_ok_4 c : 65536 <= c <= 1114111 ->
+  second_ok (240 + c / 262144) (128 + (c / 4096) mod 64) = true.
+Proof.
+  intros Hr. unfold second_ok.
+  destruct (Z.eqb_spec (240 + c / 262144) 224); [lia|].
+  destruct (Z.eqb_spec (240 + c / 262144) 237); [lia|].
+  destruct (Z.eqb_spec (240 + c / 262144) 240); [lia|].
+  destruct (Z.eqb_spec (240 + c / 262144) 244); [lia|]. unfold cont. lia.
+Qed.
+
 Lemma utf8_chunk c f t : scalar c -> utf8_decode_fuel (S f) (utf8_enc1 c ++ t) = c :: utf8_decode_fuel f t.
 Proof.
   intro Hs. unfold scalar in Hs. unfold utf8_enc1.
@@ -143,8 +163,8 @@ Proof.
   - destruct (Z.ltb_spec c 2048) as [H2|H2].
     + cbn [app utf8_decode_fuel]. decide_ifs. f_equal. lia.
     + destruct (Z.ltb_spec c 65536) as [H3|H3].
-      * cbn [app utf8_decode_fuel]. decide_ifs. f_equal. lia.
-      * cbn [app utf8_decode_fuel]. decide_ifs. f_equal. lia.
+      * cbn [app utf8_decode_fuel]. rewrite second_ok_3 by lia. decide_ifs. f_equal. lia.
+      * cbn [app utf8_decode_fuel]. rewrite second_ok_4 by lia. decide_ifs. f_equal. lia.
 Qed.
 
 Lemma utf8_roundtrip_fuel cps : Forall scalar cps -> forall f,
@@ -167,4 +187,71 @@ Proof.
   intro H. rewrite utf8_roundtrip by exact H. unfold js_to_go. f_equal.
   induction H as [|c cps Hc Hcps IH]; [reflexivity|]. cbn [map]. rewrite IH. f_equal.
   unfold scalar in Hc. unfold is_surrogate. decide_ifs. reflexivity.
+Qed.
+
+(* ---- buf.write never stores part of a multi-byte character ---- *)
+
+Definition boundary (cps : list Z) (q : nat) : Prop := exists k, q = length (utf8_encode (firstn k cps)).
+
+Lemma enc1_lead c : scalar c -> exists b r, utf8_enc1 c = b :: r /\ cont b = false /\ Forall (fun x => cont x = true) r.
+Proof.
+  intro Hs. unfold scalar in Hs. unfold utf8_enc1.
+  destruct (Z.ltb_spec c 128); [|destruct (Z.ltb_spec c 2048); [|destruct (Z.ltb_spec c 65536)]];
+    eexists; eexists; (split; [reflexivity|]); (split; [unfold cont; lia|]); repeat constructor; unfold cont; lia.
+Qed.
+
+Lemma boundary_of_noncont cps : Forall scalar cps -> forall q,
+  (q < length (utf8_encode cps))%nat -> cont (nth q (utf8_encode cps) 0) = false -> boundary cps q.
+Proof.
+  induction 1 as [|c cps Hc Hcps IH]; intros q Hq Hnc.
+  - simpl in Hq. lia.
+  - cbn [utf8_encode flat_map] in *. fold (utf8_encode cps) in *.
+    destruct (enc1_lead c Hc) as (b & r & He & Hb & Hr). rewrite He in *.
+    destruct q as [|q].
+    + exists 0%nat. reflexivity.
+    + cbn [app nth length] in *.
+      destruct (Nat.lt_ge_cases q (length r)) as [Hlt|Hge].
+      * (* inside the character: a continuation byte *)
+        rewrite app_nth1 in Hnc by exact Hlt.
+        pose proof (proj1 (Forall_forall _ _) Hr (nth q r 0) (nth_In _ _ Hlt)) as Hcq. cbv beta in Hcq. congruence.
+      * rewrite app_nth2 in Hnc by exact Hge. rewrite app_length in Hq.
+        destruct (IH (q - length r)%nat ltac:(lia) Hnc) as [k Hk].
+        exists (S k). cbn [firstn utf8_encode flat_map]. fold (utf8_encode (firstn k cps)). rewrite He.
+        cbn [app length]. rewrite app_length. lia.
+Qed.
+
+Lemma trim_cont_le raw l : (trim_cont raw l <= l)%nat.
+Proof. induction l as [|l IH]; cbn [trim_cont]; [lia|]. destruct (cont (nth (S l) raw 0)); lia. Qed.
+
+Lemma trim_cont_stops raw l : trim_cont raw l = 0%nat \/ cont (nth (trim_cont raw l) raw 0) = false.
+Proof.
+  induction l as [|l IH]; cbn [trim_cont]; [left; reflexivity|].
+  destruct (cont (nth (S l) raw 0)) eqn:E; [exact IH|right; exact E].
+Qed.
+
+Lemma encode_prefix cps k : utf8_encode cps = utf8_encode (firstn k cps) ++ utf8_encode (skipn k cps).
+Proof. unfold utf8_encode. rewrite <- flat_map_app, firstn_skipn. reflexivity. Qed.
+
+(* what write() keeps of a string whose UTF-8 form does not fit is the encoding of a prefix of its characters *)
+Theorem write_keeps_whole_chars cps l :
+  Forall scalar cps -> (l < length (utf8_encode cps))%nat ->
+  exists k, firstn (trim_cont (utf8_encode cps) l) (utf8_encode cps) = utf8_encode (firstn k cps).
+Proof.
+  intros Hs Hl. set (raw := utf8_encode cps) in *.
+  pose proof (trim_cont_le raw l) as Hle.
+  assert (Hb : boundary cps (trim_cont raw l)).
+  { destruct (trim_cont_stops raw l) as [H0|Hnc].
+    - rewrite H0. exists 0%nat. reflexivity.
+    - apply boundary_of_noncont; [exact Hs|fold raw; lia|exact Hnc]. }
+  destruct Hb as [k Hk]. exists k. unfold raw at 2. rewrite (encode_prefix cps k).
+  rewrite Hk. rewrite firstn_app, Nat.sub_diag, firstn_all. cbn [firstn]. apply app_nil_r.
+Qed.
+
+(* and it is the longest such prefix: every byte dropped beyond it is a continuation byte *)
+Theorem write_trim_maximal raw l j : (trim_cont raw l < j <= l)%nat -> cont (nth j raw 0) = true.
+Proof.
+  induction l as [|l IH]; cbn [trim_cont]; intro H; [lia|].
+  destruct (cont (nth (S l) raw 0)) eqn:E.
+  - destruct (Nat.eq_dec j (S l)) as [->|Hne]; [exact E|]. apply IH. lia.
+  - lia.
 Qed.
